@@ -605,6 +605,21 @@ theorem rpg_monitor_accepts_model (k : RKind) (hk : k.isPaged = true) (keys : Li
   rcases required_lists_present_paged k hk (fun u => .str u) keys ps c with ⟨_, h⟩ | ⟨items, h, _, _⟩ <;>
     simp [rpgMonitor, modelPg, h]
 
+/-! ## the byte stream of an io connection -/
+
+def modelNd (l : List (Bytes × Bytes)) : NdObs := .read (readStream (joinWs l)).1 (readStream (joinWs l)).2
+
+theorem ndSplit_monitor_accepts_model (l : List (Bytes × Bytes)) : ndSplitMonitor l (modelNd l) = none := by
+  simp only [ndSplitMonitor, modelNd]
+  split
+  · next h =>
+    have hf : ∀ q ∈ l, framed q.1 = true := fun q hq => by
+      have := List.all_eq_true.mp h q hq; rw [Bool.and_eq_true] at this; exact this.1
+    have hw : ∀ q ∈ l, lineSep q.2 = true := fun q hq => by
+      have := List.all_eq_true.mp h q hq; rw [Bool.and_eq_true] at this; exact this.2
+    simp [ndjson_stream_roundtrip l hf hw]
+  · rfl
+
 /-! ## frames through the other readers -/
 
 def modelRb (raw : JVal) : RbObs :=
